@@ -99,6 +99,14 @@ func (m *MMap) Close() error {
 	return m.file.Close()
 }
 
+func (m *MMap) Truncate(size int64) error {
+	// 仅需回退虚拟文件大小, 物理文件在关闭时按虚拟大小截断
+	if size < m.virtualSize {
+		m.virtualSize = size
+	}
+	return nil
+}
+
 func (m *MMap) Size() (int64, error) {
 	return m.virtualSize, nil
 }
